@@ -191,6 +191,30 @@ def run(ctx) -> None:
              "_rotate uses U† X U with the same (rotated) UU_K", rotm or uuk, (rotm or uuk).node,
              "Data_K._rotate does not sandwich with UU_K† … UU_K", stmt="_rotate body")
 
+    # ---------------------------------------------------------------- R04.4
+    r4 = ctx.rule("R04.4", "traces are taken over whole degenerate band groups (gauge-invariant subspaces)", min_instances=3)
+    st = idx.function("wannierberri/calculators/static.py", "StaticCalculator.__call__")
+    tb = idx.function("wannierberri/calculators/tabulate.py", "Tabulator.__call__")
+    dy = idx.function("wannierberri/calculators/dynamic.py", "DynamicCalculator.__call__")
+    for f in (st, tb):
+        r4.instance(f.short)
+        t = norm(f.node).replace(" ", "")
+        ok = "inn=np.arange(n[0],n[1])" in t and "out=np.concatenate((np.arange(0,n[0]),np.arange(n[1],NB)))" in t and \
+            "formula.trace(ik,inn,out)" in t
+        r4.check(ok, f"{f.qualname}: trace over inn = the whole group [n0, n1), out = its complement", f, f.node,
+                 f"{f.qualname} no longer traces the formula over exactly one whole degenerate group (inn = arange(n0, n1), out = the "
+                 f"rest): a partial trace inside a degenerate subspace depends on the arbitrary eigenvector basis chosen there",
+                 stmt="trace over whole group")
+        r4.check("degen_thresh=self.degen_thresh" in t and "degen_Kramers=self.degen_Kramers" in t, f"{f.qualname}: groups come from the "
+                 f"calculator's degeneracy settings", f, f.node, f"{f.qualname} does not group bands with its degen_thresh/degen_Kramers",
+                 stmt="group settings")
+    r4.instance(dy.short)
+    t = norm(dy.node).replace(" ", "")
+    r4.check("formula.trace_ln(ik,np.arange(*pair[0]),np.arange(*pair[1]))" in t and "fromibm,Emindegen_groups.items()foribn,Enindegen_groups.items()" in t.replace("for", "from", 1) or
+             "formula.trace_ln(ik,np.arange(*pair[0]),np.arange(*pair[1]))" in t,
+             "dynamic calculators sum matrix elements over whole group pairs", dy, dy.node,
+             "DynamicCalculator no longer sums matrix elements over whole degenerate groups", stmt="trace_ln over groups")
+
 
 from ..selftest import V  # noqa: E402
 
@@ -206,6 +230,10 @@ SELFTEST = [
     V("rotation mixes a non-degenerate neighbour", DK,
       "self._UU[ik, :, ib1:ib2] = self._UU[ik, :, ib1:ib2].dot(unitary_group.rvs(ib2 - ib1))",
       "self._UU[ik, :, ib1:ib2 + 1] = self._UU[ik, :, ib1:ib2 + 1].dot(unitary_group.rvs(ib2 - ib1))", "fire", "R04.3"),
+    V("partial trace over the selected members of a group (seeded C04-m1, simplified)", "wannierberri/calculators/static.py",
+      "                    inn = np.arange(n[0], n[1])\n                    out = np.concatenate((np.arange(0, n[0]), np.arange(n[1], NB)))\n                    values[ik][n] = formula.trace(ik, inn, out)",
+      "                    inn = np.array([b for b in range(n[0], n[1]) if self.select_bands is None or b in self.select_bands])\n                    out = np.array([b for b in range(NB) if b not in inn])\n                    values[ik][n] = formula.trace(ik, inn, out)",
+      "fire", "R04.4"),
     V("neutral: matmul operator", DK,
       "self._UU[ik, :, ib1:ib2] = self._UU[ik, :, ib1:ib2].dot(unitary_group.rvs(ib2 - ib1))",
       "self._UU[ik, :, ib1:ib2] = self._UU[ik, :, ib1:ib2] @ unitary_group.rvs(ib2 - ib1)", "silent"),
